@@ -156,6 +156,9 @@ func vfC01Gen(rt *rapid.T) vfC01Case {
 			op.K = rapid.IntRange(-3, len(live)+3).Draw(rt, "k")
 			op.Thr = vfGenThreshold(rt, kind, q, stored)
 			op.IDs = vfGenIDSubset(rt, all)
+			if rapid.IntRange(0, 4).Draw(rt, "thr_of_on") == 0 {
+				op.Thr, op.ThrOf = 0, rapid.IntRange(1, 8).Draw(rt, "thr_of_rank")
+			}
 			return op
 		}
 	})
@@ -271,6 +274,23 @@ func vfC01Run(c vfC01Case, ctx *vfCtx) *vfViolation {
 			}
 		case "search":
 			q := vfCloneF32(op.Vec)
+			var unthresholded []vfHit
+			if op.ThrOf > 0 {
+				// threshold = exactly the reported score of a hit of the unthresholded, unlimited search
+				sAll := idx.NewSearch().WithQuery(vfCloneF32(op.Vec)).WithK(0)
+				if len(op.IDs) > 0 {
+					sAll = sAll.WithDocumentIDs(op.IDs...)
+				}
+				rAll, err := sAll.Execute()
+				if err != nil {
+					return vfFail("op %d: search failed: %v", i, err)
+				}
+				unthresholded = vfHitsOf(rAll)
+				op.Thr = 0
+				if len(unthresholded) > 0 {
+					op.Thr = unthresholded[(op.ThrOf-1)%len(unthresholded)].Score
+				}
+			}
 			s := idx.NewSearch().WithQuery(q).WithK(op.K).WithThreshold(op.Thr)
 			if len(op.IDs) > 0 {
 				s = s.WithDocumentIDs(op.IDs...)
@@ -278,6 +298,13 @@ func vfC01Run(c vfC01Case, ctx *vfCtx) *vfViolation {
 			res, err := s.Execute()
 			if err != nil {
 				return vfFail("op %d: search failed: %v", i, err)
+			}
+			if op.ThrOf > 0 && op.Thr > 0 {
+				if v := vfThresholdRelation(unthresholded, vfHitsOf(res), op.Thr, op.K); v != nil {
+					v.Msg = "op " + itoa(i) + ": " + v.Msg
+					return v
+				}
+				ctx.Class("threshold_equal_to_a_reported_score")
 			}
 			if !vfBitsEqual(q, op.Vec) {
 				return vfFail("op %d: search modified the caller's query", i)
